@@ -1,8 +1,10 @@
-// code -> spec: records executions of the real executors on seeded random trees (larger than TLC can enumerate) as ndjson
-// traces of kernel calls for validation by TLC against spec/FmmTrace.tla.
-// usage: record_fmm <height> <seed> <nbExecutions> <maxParticles> <mode 0 single | 1 target/source>   (dimension / periodicity fixed at build time)
-// executions alternate between the sequential executor, the target/source executor and the OpenMP executor under the
-// mock runtime with a seeded random schedule.
+// code -> spec: records sessions of the real classes on seeded random trees (larger than TLC can enumerate) as ndjson
+// traces for validation by TLC against spec/FmmTrace.tla.
+// usage: record_fmm <height> <seed> <nbSessions> <maxParticles> <mode 0 single | 1 target/source> [<events>]   (dimension / periodicity fixed at build time)
+//   events (bit mask): 1 Tree (group structure after construction and after every rebuild), 2 Find (look-ups), 4 histories (staged executes,
+//   in-place moves + rebuild + second pass).  Default 0: one full execute per session, kernel calls only.
+// A session:  Init  [Tree..] [Find..]  kernel calls of execute(...)  [Rebuild [Tree..] [Find..] kernel calls]  End
+// Sessions alternate between the sequential executor and the OpenMP executor under the mock runtime with a seeded random schedule.
 #include "mockomp.hpp"
 #include "fmmrun.hpp"
 #include "algorithms/openmp/tbfopenmpalgorithm.hpp"
@@ -10,12 +12,48 @@
 #include <random>
 using namespace vh;
 
+static std::mt19937_64* gRng = nullptr;
+
+template <class T> static void logTree(T& tree, long which, long H){
+    printf("{\"e\":\"Tree\",\"which\":%ld,\"groups\":[", which);
+    for(long l = 0; l < H; ++l){
+        printf("%s[", l ? "," : "");
+        auto& gs = tree.getCellGroupsAtLevel(l);
+        for(size_t g = 0; g < gs.size(); ++g){ std::vector<long> c; for(long i = 0; i < gs[g].getNbCells(); ++i) c.push_back((long)gs[g].getCellSpacialIndex(i)); printf("%s%s", g ? "," : "", listStr(c).c_str()); }
+        printf("]");
+    }
+    // the leaf level once more as seen through the particle groups (one-to-one, cell by cell, with the leaf cell groups)
+    printf("],\"leaves\":[");
+    auto& pg = tree.getParticleGroups();
+    for(size_t g = 0; g < pg.size(); ++g){ std::vector<long> c; for(long i = 0; i < pg[g].getNbLeaves(); ++i) c.push_back((long)pg[g].getLeafSpacialIndex(i)); printf("%s%s", g ? "," : "", listStr(c).c_str()); }
+    printf("]}\n");
+}
+template <class T> static void logFinds(T& tree, long which, long H, int n){
+    auto& rng = *gRng;
+    for(int k = 0; k < n; ++k){
+        const long l = (long)(rng() % (unsigned long)H); const long ub = 1L << (l * Dim);
+        long idx;
+        auto& gs = tree.getCellGroupsAtLevel(l);
+        const int how = (int)(rng() % 6);
+        if(how == 0) idx = -1; else if(how == 1) idx = ub; else if(how <= 3 || gs.empty()) idx = (long)(rng() % (unsigned long)ub);
+        else { auto& g = gs[rng() % gs.size()]; idx = (long)g.getCellSpacialIndex((long)(rng() % (unsigned long)g.getNbCells())) + (how == 5 ? 1 : 0); }
+        {   auto f = tree.findGroupWithCell(l, idx); long g = 0, p = 0;
+            if(f){ g = (long)(&f->first.get() - &gs[0]) + 1; p = (long)f->second + 1; }
+            printf("{\"e\":\"Find\",\"which\":%ld,\"leaf\":0,\"l\":%ld,\"m\":%ld,\"g\":%ld,\"p\":%ld}\n", which, l, idx, g, p); }
+        if(l == H - 1){ auto& pg = tree.getParticleGroups(); auto f = tree.findGroupWithLeaf(idx); long g = 0, p = 0;
+            if(f){ g = (long)(&f->first.get() - &pg[0]) + 1; p = (long)f->second + 1; }
+            printf("{\"e\":\"Find\",\"which\":%ld,\"leaf\":1,\"l\":%ld,\"m\":%ld,\"g\":%ld,\"p\":%ld}\n", which, l, idx, g, p); }
+    }
+}
+
 int main(int argc, char** argv){
-    if(argc < 5){ fprintf(stderr, "usage: record_fmm height seed nbExec maxParticles\n"); return 2; }
+    if(argc < 5){ fprintf(stderr, "usage: record_fmm height seed nbExec maxParticles [mode [events]]\n"); return 2; }
     const long H = atol(argv[1]); const unsigned long seed = strtoul(argv[2], nullptr, 10); const long nexec = atol(argv[3]); const long maxN = atol(argv[4]); const long modeArg = argc > 5 ? atol(argv[5]) : 0;
-    std::mt19937_64 rng(seed * 1000003 + 17);
+    const long events = argc > 6 ? atol(argv[6]) : 0;
+    std::mt19937_64 rng(seed * 1000003 + 17 + (unsigned long)events * 7919); gRng = &rng;
     Report rep; auto& RT = mockomp::rt();
     const long side = 1L << (H - 1);
+    installCrashHandlers(); gCrashKey = "record_fmm";
     for(long ex = 0; ex < nexec; ++ex){
         Scn s; s.variant = (long)(rng() % 16); s.dim = Dim; s.height = H; s.periodic = Per; s.mode = modeArg;
         s.bs = 1 + (long)(rng() % 7); s.ogpp = rng() % 2; s.stop = Per ? 1 : (long)(rng() % 3); s.hist = 0; s.above = -1; s.ilo = -1; s.ihi = 1;
@@ -27,21 +65,55 @@ int main(int argc, char** argv){
         Replayer R(rep, s); R.makeInputs(s.sparts, R.spos, R.sSpec, R.sInputOf);
         if(s.mode) R.makeInputs(s.tparts, R.tpos, R.tSpec, R.tInputOf); else { R.tpos = R.spos; R.tSpec = R.sSpec; R.tInputOf = R.sInputOf; }
         R.setupContext(); ctx<Dim>().rep = nullptr;
+        const bool omp = (ex % 2 == 1);
         // input order: spec pid q is inserted at R.sInputOf[q-1]; the trace lists leaves by spec pid
-        printf("{\"e\":\"Init\",\"dim\":%ld,\"height\":%ld,\"periodic\":%s,\"mode\":%ld,\"stop\":%ld,\"bs\":%ld,\"ogpp\":%ld,\"exec\":\"%s\",\"sparts\":%s,\"tparts\":%s}\n", Dim, H, Per ? "true" : "false", s.mode, s.stop, s.bs, s.ogpp,
-               (ex % 2 == 1) ? (s.mode ? "openmp-tsm-mock-random" : "openmp-mock-random") : (s.mode ? "sequential-tsm" : "sequential"), listStr(s.sparts).c_str(), listStr(s.tparts).c_str());
-        ctx<Dim>().trace = stdout;
+        printf("{\"e\":\"Init\",\"dim\":%ld,\"height\":%ld,\"periodic\":%s,\"mode\":%ld,\"stop\":%ld,\"bs\":%ld,\"ogpp\":%s,\"exec\":\"%s\",\"sparts\":%s,\"tparts\":%s}\n", Dim, H, Per ? "true" : "false", s.mode, s.stop, s.bs, s.ogpp ? "true" : "false",
+               omp ? (s.mode ? "openmp-tsm-mock-random" : "openmp-mock-random") : (s.mode ? "sequential-tsm" : "sequential"), listStr(s.sparts).c_str(), listStr(s.tparts).c_str());
         RT.strategy = mockomp::RANDOM; RT.nthreads = 1 + (int)(rng() % 8); RT.wpolicy = mockomp::W_RANDOM; RT.seed = rng(); RT.scrub = false; RT.reset();
+        // the history of this session
+        std::vector<std::vector<int>> passes;        // each pass = the flag sets of its execute() calls
+        auto onePass = [&](){ std::vector<int> p; if(!(events & 4)) return std::vector<int>{F_ALL};
+            switch((int)(rng() % 5)){ case 0: p = {F_ALL}; break; case 1: p = {F_P2M|F_M2M, F_M2L|F_P2P, F_L2L|F_L2P}; break; case 2: p = {F_P2P, F_P2M|F_M2M|F_M2L, F_L2L|F_L2P}; break;
+                                    case 3: p = {F_P2M|F_M2M|F_M2L|F_L2L|F_L2P, F_P2P}; break; default: p = {F_P2M, F_M2M, F_M2L, F_L2L, F_L2P, F_P2P}; } return p; };
+        passes.push_back(onePass());
+        if((events & 4) && rng() % 2 == 0) passes.push_back(onePass());
+        auto runPasses = [&](auto& tree, auto& algo, auto&& logTrees, auto&& moveSome){
+            for(size_t p = 0; p < passes.size(); ++p){
+                if(p > 0){
+                    moveSome();
+                    gPhase = "rebuild"; tree.rebuild();
+                    printf("{\"e\":\"Rebuild\",\"sparts\":%s,\"tparts\":%s}\n", listStr(s.sparts).c_str(), listStr(s.tparts).c_str());
+                }
+                logTrees();
+                ctx<Dim>().trace = stdout; gPhase = "execute";
+                for(int flags : passes[p]) algo.execute(tree, flags);
+                ctx<Dim>().trace = nullptr;
+            }
+        };
+        auto randomLeaf = [&](){ std::array<long,Dim> c; for(long d = 0; d < Dim; ++d) c[d] = (long)(rng() % (unsigned long)side); return mortonIndex<Dim>(c, H - 1); };
         if(s.mode == 0){
-            Tree tree(R.conf, R.spos, s.bs, s.ogpp != 0); R.registerCells<true,true>(tree);
-            if(ex % 2 == 1){ TbfOpenmpAlgorithm<Real, Kern, Space> algo(R.conf, s.stop); algo.execute(tree); }
-            else { TbfAlgorithm<Real, Kern, Space> algo(R.conf, s.stop); algo.execute(tree); }
+            Tree tree(R.conf, R.spos, s.bs, s.ogpp != 0);
+            auto logTrees = [&](){ ctx<Dim>().mpOf.clear(); ctx<Dim>().loOf.clear(); R.registerCells<true,true>(tree); if(events & 1) logTree(tree, 0, H); if(events & 2) logFinds(tree, 0, H, 12); };
+            auto moveSome = [&](){ const long nm = 1 + (long)(rng() % 3);
+                for(long k = 0; k < nm; ++k){ const long q = (long)(rng() % s.sparts.size()); const long in = R.sInputOf[q]; const long to = (rng() % 2) ? randomLeaf() : s.sparts[rng() % s.sparts.size()];
+                    s.sparts[q] = to; for(long d = 0; d < Dim; ++d) R.spos[in][d] = R.leafCentreCoord(to, d);
+                    tree.applyToAllLeaves([&](auto&& h, const long* idx, auto data, auto){ for(long i = 0; i < h.nbParticles; ++i) if(idx[i] == in) for(long d = 0; d < Dim; ++d) data[d][i] = R.spos[in][d]; }); }
+                s.tparts = s.sparts; };
+            if(omp){ TbfOpenmpAlgorithm<Real, Kern, Space> algo(R.conf, s.stop); runPasses(tree, algo, logTrees, moveSome); }
+            else { TbfAlgorithm<Real, Kern, Space> algo(R.conf, s.stop); runPasses(tree, algo, logTrees, moveSome); }
         } else {
-            TreeTsm tree(R.conf, R.spos, R.tpos, s.bs, s.ogpp != 0); SrcView S{tree}; TgtView T{tree}; R.registerCells<true,false>(S); R.registerCells<false,true>(T);
-            if(ex % 2 == 1){ TbfOpenmpAlgorithmTsm<Real, Kern, Space> algo(R.conf, s.stop); algo.execute(tree); }
-            else { TbfAlgorithmTsm<Real, Kern, Space> algo(R.conf, s.stop); algo.execute(tree); }
+            TreeTsm tree(R.conf, R.spos, R.tpos, s.bs, s.ogpp != 0); SrcView S{tree}; TgtView T{tree};
+            auto logTrees = [&](){ ctx<Dim>().mpOf.clear(); ctx<Dim>().loOf.clear(); R.registerCells<true,false>(S); R.registerCells<false,true>(T);
+                if(events & 1){ logTree(S, 0, H); logTree(T, 1, H); } if(events & 2){ logFinds(S, 0, H, 8); logFinds(T, 1, H, 8); } };
+            auto moveSome = [&](){ const long nm = 1 + (long)(rng() % 3);
+                for(long k = 0; k < nm; ++k){ const bool tg = rng() % 2; auto& parts = tg ? s.tparts : s.sparts; auto& pos = tg ? R.tpos : R.spos; auto& inputOf = tg ? R.tInputOf : R.sInputOf;
+                    const long q = (long)(rng() % parts.size()); const long in = inputOf[q]; const long to = (rng() % 2) ? randomLeaf() : parts[rng() % parts.size()];
+                    parts[q] = to; for(long d = 0; d < Dim; ++d) pos[in][d] = R.leafCentreCoord(to, d);
+                    auto edit = [&](auto&& h, const long* idx, auto data, auto...){ for(long i = 0; i < h.nbParticles; ++i) if(idx[i] == in) for(long d = 0; d < Dim; ++d) data[d][i] = pos[in][d]; };
+                    if(tg) tree.applyToAllLeavesTarget(edit); else tree.applyToAllLeavesSource(edit); } };
+            if(omp){ TbfOpenmpAlgorithmTsm<Real, Kern, Space> algo(R.conf, s.stop); runPasses(tree, algo, logTrees, moveSome); }
+            else { TbfAlgorithmTsm<Real, Kern, Space> algo(R.conf, s.stop); runPasses(tree, algo, logTrees, moveSome); }
         }
-        ctx<Dim>().trace = nullptr;
         printf("{\"e\":\"End\"}\n");
     }
     RT.reset();
